@@ -10,3 +10,7 @@ pub assume_specification<T, A: core::alloc::Allocator, F: FnMut(&T) -> bool>[ Ve
 pub assume_specification<T, U, F: FnOnce(T) -> U>[ Option::<T>::map_or ](o: Option<T>, default: U, f: F) -> (r: U)
     requires o is Some ==> f.requires((o->0,)),
     ensures match o { Some(t) => f.ensures((t,), r), None => r == default };
+pub assume_specification<T: Clone>[ <[T]>::to_vec ](s: &[T]) -> (r: Vec<T>)
+    ensures r@.len() == s@.len(), forall|i: int| 0 <= i < s@.len() ==> vstd::pervasive::cloned(s@[i], #[trigger] r@[i]);
+pub assume_specification<T, E>[ Result::<T, E>::unwrap_or ](r: Result<T, E>, d: T) -> (o: T)
+    ensures o == (match r { Ok(t) => t, Err(_) => d });
